@@ -4,6 +4,7 @@ package harness
 
 import (
 	"context"
+	"encoding/binary"
 	"fmt"
 	"os"
 	"sort"
@@ -108,20 +109,37 @@ func OpenStore(dir string, o StoreOpts) (*Store, error) {
 	}, nil
 }
 
-// EncodeBulk builds the (docs, metas) blocks of one bulk exactly as the proxy does.
+// EncodeBulk builds the (docs, metas) blocks of one bulk exactly as the proxy does
+// (proxy/bulk/processor.go + frac.DocsMetasCompressor): docs = [u32 len][bytes]...,
+// metas = [u32 len][MetaData v1]..., nested entries are zero-size metas directly after
+// their parent.
 func EncodeBulk(docs []model.Doc) ([]byte, []byte) {
-	dp := frac.NewDocProvider()
+	var dbuf, mbuf, one []byte
+	appendMeta := func(id model.ID, size int, toks []model.Tok) {
+		md := frac.MetaData{ID: seq.ID{MID: seq.MID(id.MID), RID: seq.RID(id.RID)}, Size: uint32(size)}
+		for _, t := range toks {
+			md.Tokens = append(md.Tokens, frac.MetaToken{Key: []byte(t.F), Value: []byte(t.V)})
+		}
+		one = md.MarshalBinaryTo(one[:0])
+		mbuf = binary.LittleEndian.AppendUint32(mbuf, uint32(len(one)))
+		mbuf = append(mbuf, one...)
+	}
 	for i := range docs {
 		d := &docs[i]
-		toks := make([]seq.Token, len(d.Toks))
-		for j, t := range d.Toks {
-			toks[j] = seq.Token{Field: []byte(t.F), Val: []byte(t.V)}
+		appendMeta(d.ID, len(d.Body), d.Toks)
+		for _, n := range d.Nested {
+			appendMeta(d.ID, 0, n)
 		}
-		dp.Append(d.Body, nil, seq.ID{MID: seq.MID(d.ID.MID), RID: seq.RID(d.ID.RID)}, toks)
+		dbuf = binary.LittleEndian.AppendUint32(dbuf, uint32(len(d.Body)))
+		dbuf = append(dbuf, d.Body...)
 	}
-	dk, mt := dp.Provide()
-	// Provide returns pooled buffers; copy so that callers may keep them
-	return append([]byte{}, dk...), append([]byte{}, mt...)
+	c := frac.GetDocsMetasCompressor(-1, -1)
+	c.CompressDocsAndMetas(dbuf, mbuf)
+	dk, mt := c.DocsMetas()
+	// the compressor's buffers are pooled; copy so that callers may keep the blocks
+	dk, mt = append([]byte{}, dk...), append([]byte{}, mt...)
+	frac.PutDocMetasCompressor(c)
+	return dk, mt
 }
 
 func (s *Store) Bulk(docs []model.Doc) error {
